@@ -197,7 +197,7 @@ impl RustCodeGenerator {
                         EncodingOrdering::Sort => "set",
                     },
                     *tag,
-                    extension_after.map(|index| fields[index].name().to_string()),
+                    extension_after.map(|index| Self::rust_field_name(fields[index].name(), true)),
                     &[],
                 ));
                 Self::add_struct(
